@@ -123,7 +123,7 @@ def build_driver():
     os.makedirs(od, exist_ok=True)
     src = [os.path.join(COQ, f) for f in coq_files() if f.startswith(("model/", "gen/", "spec/"))]
     src += [os.path.join(COQ, "extract", "Extract.v"),
-            os.path.join(VERIF, "ocaml", "util.ml"), os.path.join(VERIF, "ocaml", "driver.ml")]
+            os.path.join(VERIF, "ocaml", "util.ml"), os.path.join(VERIF, "ocaml", "script.ml"), os.path.join(VERIF, "ocaml", "driver.ml")]
     h = hashlib.sha256()
     for s in sorted(src):
         h.update(open(s, "rb").read())
@@ -135,11 +135,11 @@ def build_driver():
            cwd=od, timeout=1000, check=False)
     if p.returncode != 0:
         raise BuildError("extraction", p.stdout)
-    for f in ("util.ml", "driver.ml"):
+    for f in ("util.ml", "script.ml", "driver.ml"):
         with open(os.path.join(od, f), "w") as o:
             o.write(open(os.path.join(VERIF, "ocaml", f)).read())
     p = sh(["ocamlfind", "ocamlopt", "-w", "-a", "-package", "str", "model.mli", "model.ml",
-            "util.ml", "driver.ml", "-o", exe], cwd=od, timeout=900, check=False)
+            "util.ml", "script.ml", "driver.ml", "-o", exe], cwd=od, timeout=900, check=False)
     if p.returncode != 0:
         raise BuildError("ocaml build", p.stdout)
     with open(stamp, "w") as f:
